@@ -10,6 +10,7 @@ import json
 import os
 import shutil
 import tempfile
+import time
 import types
 
 from hypothesis import strategies as st
@@ -121,8 +122,13 @@ def json_end(buf):
 
 
 async def quiesce(loop, rounds=4):
+    """wait until nothing is scheduled and no executor job (sqlite, file read) is in flight.  While a worker thread is busy this
+    coroutine must not spin (on a loaded machine the spinning loop thread starved the worker and an iteration limit was hit:
+    harness error in a thorough run); it naps for real instead.  The wall-clock bound only guards the harness against a genuine
+    dead-lock, it is never a verdict."""
     stable = 0
-    for _ in range(100000):
+    t0 = time.monotonic()
+    while True:
         await asyncio.sleep(0)
         if loop._inflight == 0 and len(loop._ready) == 0:
             stable += 1
@@ -131,8 +137,10 @@ async def quiesce(loop, rounds=4):
         else:
             stable = 0
             if loop._inflight:
+                time.sleep(0.0005)
                 await asyncio.sleep(0)
-    raise RuntimeError("quiesce: loop never became quiet")
+        if time.monotonic() - t0 > 300:
+            raise RuntimeError("quiesce: loop never became quiet (300 s)")
 
 
 class Side:
@@ -591,6 +599,8 @@ async def downloader_async(case, out, loop):
                     stable, last = 0, -1
                     for _ in range(20000):
                         await asyncio.sleep(0)
+                        if loop._inflight:
+                            time.sleep(0.0005)
                         stable = stable + 1 if (loop._inflight == 0 and len(ts.out) == last) else 0
                         last = len(ts.out)
                         if stable >= 8:
